@@ -488,7 +488,7 @@ class RunningShow:
 
     __slots__ = ["machine", "show", "show_steps", "show_config", "callback", "start_step", "start_running",
                  "start_callback", "_delay_handler", "next_step_index", "current_step_index", "next_step_time",
-                 "name", "loops", "id", "_players", "debug", "_stopped", "_total_steps", "context"]
+                 "name", "loops", "id", "_players", "debug", "_stopped", "_started", "_total_steps", "context"]
 
     # pylint: disable-msg=too-many-arguments
     # pylint: disable-msg=too-many-locals
@@ -514,6 +514,7 @@ class RunningShow:
 
         self.debug = False
         self._stopped = False
+        self._started = False
         self._total_steps = None
         self.show_steps = self.show.get_show_steps_with_token(self.show_config.show_tokens)
         self._start_play()
@@ -602,6 +603,8 @@ class RunningShow:
         # the show may not be paused: do not start a second chain of step timers
         self._remove_delay_handler()
         self.next_step_time = self.machine.clock.get_time()
+        if self._start_if_waiting():
+            return
         self._run_next_step(post_events=self.show_config.events_when_resumed)
 
     def update(self, **kwargs):
@@ -620,6 +623,8 @@ class RunningShow:
         """Manually advance this show to the next step."""
         self._remove_delay_handler()
         self.next_step_time = self.machine.clock.get_time()
+        if self._start_if_waiting():
+            return
 
         if steps != 1:
             self.next_step_index += steps - 1
@@ -635,13 +640,27 @@ class RunningShow:
         """Manually step back this show to a previous step."""
         self._remove_delay_handler()
         self.next_step_time = self.machine.clock.get_time()
+        if self._start_if_waiting():
+            return
 
         self.next_step_index -= steps + 1
 
         self._run_next_step(post_events=self.show_config.events_when_stepped_back)
 
+    def _start_if_waiting(self) -> bool:
+        """Start a show which still waits for its synchronised start (sync_ms) because a request wants a step now.
+
+        The show starts like it would have at its sync time: the show it replaces is stopped, events_when_played are
+        posted and the start step is played. Return true if the show was started here.
+        """
+        if self._started or self._stopped:
+            return False
+        self._start_now()
+        return True
+
     def _start_now(self) -> None:
         """Start playing the show."""
+        self._started = True
         if self.start_callback:
             self.start_callback()
             self.start_callback = None
